@@ -17,11 +17,14 @@ package fs
 //@   ensures[C07.failed-file-sync-keeps-new] !traced("open(dir)") && result != nil ==> f.new == old(f.new)
 //@   ensures[C07.failed-sync-is-retried] result != nil ==> f.new == old(f.new)
 
+//@ -- a Create that reports an error must not leave the (empty) file or an open
+//@ -- descriptor behind: the exclusive create of a retry would fail with EEXIST
 //@ func (*FS).Create
-//@   props C07
+//@   props C07 C11
 //@   ensures[C07.create-exclusive] traced("openfile(excl-create,rdwr)")
 //@   ensures[C07.create-prealloc] result1 == nil && size > 0 ==> traced("openfile(excl-create,rdwr)", "preallocate(extend)")
 //@   ensures[C07.create-new-flag] result1 == nil ==> isdyn(result0, "fs.File") && result0.new == 0
+//@   ensures[C07.failed-create-leaves-nothing] result1 != nil && f != nil ==> traced("close(file)") && traced("unlink")
 
 //@ func (*FS).Delete
 //@   props C07
